@@ -9,20 +9,23 @@ import RelicVerif.Gen.Params
 namespace Driver.C18
 open Driver Relic.Model.Param Relic.Gen
 
-/-- the extracted table describes the baseline configuration; contexts of other field sizes (p255, p381, … streams) are not judged
-    against it -/
+/-- the tables of the baseline configuration and of the other configurations the translator extracts (p255, p381) -/
+def allFields : List FieldParam := Params.fields ++ Params.extraFields
+def allCurves : List CurveParam := Params.curves ++ Params.extraCurves
+
+/-- contexts of field sizes no extracted table describes (the further pairing field sizes of the thorough sweeps) are not judged -/
 def tableCovers (p : Nat) : Bool :=
-  Params.fields.any fun f => Nat.log2 f.prime == Nat.log2 p
+  allFields.any fun f => Nat.log2 f.prime == Nat.log2 p
 
 def checkAgainstTable (e : C03.Env) : List String :=
   if !tableCovers e.c.p then [] else
   match (e.kv.lookup "id").bind String.toNat? with
   | none => ["no id"]
   | some id =>
-    match Params.curves.find? (·.id == id) with
+    match allCurves.find? (·.id == id) with
     | none => ["curve id " ++ toString id ++ " is selectable in the library but absent from the extracted table"]
     | some c =>
-      match lookupField Params.fields c.field with
+      match lookupField allFields c.field with
       | none => ["field " ++ c.field ++ " absent from the extracted table"]
       | some f =>
         let p := f.prime
@@ -46,7 +49,7 @@ def checkAgainstTable (e : C03.Env) : List String :=
          | some l =>
            -- generic-group security: half the order size, capped by the table in ep_param_level for pairing curves
            let half := (Nat.log2 c.r + 1) / 2
-           if l ≤ half ∧ l + 32 ≥ half then [] else ["advertised security level " ++ toString l ++ " inconsistent with a " ++ toString (Nat.log2 c.r + 1) ++ "-bit order"]
+           if l ≤ half + 2 ∧ l + 32 ≥ half then [] else ["advertised security level " ++ toString l ++ " inconsistent with a " ++ toString (Nat.log2 c.r + 1) ++ "-bit order"]
          | none => ["no level"])
 
 /-- the twist the library reports (`ep2_param`) against the table extracted from src/epx/relic_ep2_curve.c -/
@@ -55,7 +58,7 @@ def checkTwistAgainstTable (e : C11.Env) : List String :=
   match (e.kv.lookup "id").bind String.toNat? with
   | none => ["no id"]
   | some id =>
-    match Params.curves.find? (·.id == id) with
+    match allCurves.find? (·.id == id) with
     | none => ["curve id " ++ toString id ++ " absent from the extracted table"]
     | some c =>
       match c.twist with
